@@ -95,6 +95,114 @@ pub fn gen_fix_rules(rng: &mut Rng, lang: SupportLang, pats: &[(String, Option<S
   v
 }
 
+
+/// the same command with --json=stream (the announcement) and then with -U, twice in a row, on the tree `proj`
+fn announce_and_apply(out: &mut Out, proj: &Path, base: &[String], desc: &str, expands: &dyn Fn(&str) -> bool, sampled: &mut bool) {
+      // two invocations in a row (the repeated-invocation clause)
+      for pass in 0..2 {
+        let mut before = BTreeMap::new();
+        read_tree(proj, proj, &mut before);
+        let mut ja: Vec<&str> = base.iter().map(|x| x.as_str()).collect();
+        ja.push("--json=stream");
+        ja.push(".");
+        let r = sg(proj, &ja, None, 30);
+        let what = format!("sg {} --json / -U pass {pass} {desc}", base.join(" "));
+        out.checked();
+        if r.timed_out || !matches!(r.code, Some(0) | Some(1)) {
+          out.oracle_fail("", &format!("{what}: --json exit {:?} timed_out={} stderr={}", r.code, r.timed_out, r.stderr.chars().take(300).collect::<String>()), json!({"stream": "c18"}));
+          break;
+        }
+        let Ok(recs) = json_lines(&r.stdout) else { break };
+        // --json groups the records by rule; -U goes through the file in document order (the order in which
+        // the nodes are discovered, rules by id on the same node): announced edits are ordered that way
+        let mut recs = recs;
+        recs.sort_by_key(|rec| { let k = rec_key(rec); (k.0, k.2, usize::MAX - k.3, k.1) });
+        let mut per_file: BTreeMap<String, Vec<(usize, usize, String)>> = BTreeMap::new();
+        let mut file_langs: BTreeMap<String, std::collections::BTreeSet<String>> = BTreeMap::new();
+        let mut c06_bad: Option<String> = None;
+        for rec in &recs {
+          let (file, rid, ns, ne) = rec_key(rec);
+          let Some(ro) = rec.get("replacementOffsets") else { continue };
+          let (s, e) = (ro["start"].as_u64().unwrap_or(0) as usize, ro["end"].as_u64().unwrap_or(0) as usize);
+          let rep = rec["replacement"].as_str().unwrap_or("").to_string();
+          // C06: locality of the announced edit
+          let exp = expands(&rid);
+          let old = before.get(&file).cloned().unwrap_or_default();
+          let local = if exp { s <= ns && e >= ns && e <= old.len() } else { s == ns && e <= ne };
+          let on_boundary = std::str::from_utf8(&old[..s.min(old.len())]).is_ok() && std::str::from_utf8(&old[..e.min(old.len())]).is_ok();
+          if c06_bad.is_none() && (!local || !on_boundary || s > e) {
+            c06_bad = Some(format!("{file}: rule {rid} matched {ns}..{ne} but proposes to replace {s}..{e} (expansion configured: {exp}, on character boundaries: {on_boundary})"));
+          }
+          file_langs.entry(file.clone()).or_default().insert(rec["language"].as_str().unwrap_or("").to_string());
+          per_file.entry(file).or_default().push((s, e, rep));
+        }
+        if let Some(m) = c06_bad {
+          out.oracle_fail("", &format!("{what}: {m}"), json!({"stream": "c06-locality", "desc": desc}));
+        }
+        // -U on the same tree
+        let mut ua: Vec<&str> = base.iter().map(|x| x.as_str()).collect();
+        ua.push("-U");
+        ua.push(".");
+        let ru = sg(proj, &ua, None, 30);
+        if ru.timed_out || !matches!(ru.code, Some(0) | Some(1)) {
+          out.oracle_fail("", &format!("{what}: -U exit {:?} timed_out={} stderr={}", ru.code, ru.timed_out, ru.stderr.chars().take(300).collect::<String>()), json!({"stream": "c18", "desc": desc}));
+          break;
+        }
+        let mut after = BTreeMap::new();
+        read_tree(proj, proj, &mut after);
+        let mut total = 0usize;
+        let mut bad: Option<String> = None;
+        let mut bad_class = "";
+        for (f, old) in &before {
+          let edits = per_file.get(f).cloned().unwrap_or_default();
+          match splice(old, &edits) {
+            Ok((want, n)) => {
+              total += n;
+              if after.get(f) != Some(&want) && bad.is_none() {
+                if file_langs.get(f).map(|l| l.len()).unwrap_or(0) > 1 {
+                  bad_class = "multi-document-file";
+                }
+                bad = Some(format!("{f}: after -U the file differs from the original with the {} announced edits applied ({} accepted)", edits.len(), n));
+              }
+              if std::str::from_utf8(&want).is_err() && std::str::from_utf8(old).is_ok() && bad.is_none() {
+                bad = Some(format!("{f}: applying the announced edits does not give valid UTF-8"));
+              }
+            }
+            Err(m) => bad = bad.or(Some(format!("{f}: {m}"))),
+          }
+        }
+        // tie: the model's update_file on (old text, announced edits in document order) per file
+        for (f, old) in &before {
+          let edits = per_file.get(f).cloned().unwrap_or_default();
+          if edits.is_empty() || file_langs.get(f).map(|l| l.len()).unwrap_or(0) > 1 {
+            continue;
+          }
+          let accepted = splice(old, &edits).map(|x| x.1).unwrap_or(0);
+          let changed = after.get(f) != Some(old);
+          let exp_new = if accepted == 0 { crate::val::Val::opt(None) } else { crate::val::Val::opt(Some(crate::val::Val::bytes(after.get(f).map(|v| v.as_slice()).unwrap_or(&[])))) };
+          let _ = changed;
+          out.case(43, &crate::vl![crate::val::Val::bytes(old), crate::val::Val::L(edits.iter().map(|(s, e, r)| crate::vl![crate::val::Val::n(*s), crate::val::Val::n(*e), crate::val::Val::str_bytes(r)]).collect())],
+            &crate::vl![crate::val::Val::Z(0), exp_new, crate::val::Val::n(accepted)], &format!("update_file {f} ({} announced edits) {}", edits.len(), what.chars().take(200).collect::<String>()));
+        }
+        let applied: usize = ru.stdout.find("Applied ").and_then(|i| ru.stdout[i + 8..].split(' ').next().and_then(|x| x.parse().ok())).unwrap_or(0);
+        if bad.is_none() && applied != total {
+          bad = Some(format!("the command reports {applied} applied changes, {total} edits are present in the files"));
+        }
+        out.count(if total == 0 { "update:no-edit" } else if per_file.values().any(|v| v.len() > 1) { "update:several-edits-in-a-file" } else { "update:single-edits" });
+        if total > 0 {
+          out.nontrivial(&(desc.to_string(), pass));
+          if !*sampled {
+            *sampled = true;
+            out.sample(json!({"cmd": what.chars().take(300).collect::<String>(), "edits": total}));
+          }
+        }
+        if let Some(m) = bad {
+          out.oracle_fail(bad_class, &format!("{what}: {m}"), json!({"stream": "c18", "desc": desc, "stdout": ru.stdout.chars().take(300).collect::<String>()}));
+          break;
+        }
+      }
+}
+
 pub fn run(o: &Opts) {
   let mut out = Out::new(&o.out);
   let mut rng = Rng::new(o.seed ^ 0xc18);
@@ -153,108 +261,54 @@ pub fn run(o: &Opts) {
       std::fs::write(&rule_path, yamls.join("---\n")).unwrap();
       let rabs = std::fs::canonicalize(&rule_path).unwrap();
       let rarg = rabs.to_str().unwrap();
-      // two invocations in a row (the repeated-invocation clause)
-      for pass in 0..2 {
-        let mut before = BTreeMap::new();
-        read_tree(&proj, &proj, &mut before);
-        let r = sg(&proj, &["scan", "-r", rarg, "--json=stream", "."], None, 30);
-        let what = format!("sg scan -r rules --json / -U pass {pass} lang={lang} rules={}", serde_json::to_string(&yamls).unwrap());
-        out.checked();
-        if r.timed_out || !matches!(r.code, Some(0) | Some(1)) {
-          out.oracle_fail("", &format!("{what}: --json exit {:?} timed_out={} stderr={}", r.code, r.timed_out, r.stderr.chars().take(300).collect::<String>()), json!({"stream": "c18"}));
-          break;
-        }
-        let Ok(recs) = json_lines(&r.stdout) else { break };
-        // --json groups the records by rule; -U goes through the file in document order (the order in which
-        // the nodes are discovered, rules by id on the same node): announced edits are ordered that way
-        let mut recs = recs;
-        recs.sort_by_key(|rec| { let k = rec_key(rec); (k.0, k.2, usize::MAX - k.3, k.1) });
-        let mut per_file: BTreeMap<String, Vec<(usize, usize, String)>> = BTreeMap::new();
-        let mut file_langs: BTreeMap<String, std::collections::BTreeSet<String>> = BTreeMap::new();
-        let mut c06_bad: Option<String> = None;
-        for rec in &recs {
-          let (file, rid, ns, ne) = rec_key(rec);
-          let Some(ro) = rec.get("replacementOffsets") else { continue };
-          let (s, e) = (ro["start"].as_u64().unwrap_or(0) as usize, ro["end"].as_u64().unwrap_or(0) as usize);
-          let rep = rec["replacement"].as_str().unwrap_or("").to_string();
-          // C06: locality of the announced edit
-          let exp = rules.iter().any(|fr| fr.yaml.starts_with(&format!("id: {rid}\n")) && fr.expands);
-          let old = before.get(&file).cloned().unwrap_or_default();
-          let local = if exp { s <= ns && e >= ns && e <= old.len() } else { s == ns && e <= ne };
-          let on_boundary = std::str::from_utf8(&old[..s.min(old.len())]).is_ok() && std::str::from_utf8(&old[..e.min(old.len())]).is_ok();
-          if c06_bad.is_none() && (!local || !on_boundary || s > e) {
-            c06_bad = Some(format!("{file}: rule {rid} matched {ns}..{ne} but proposes to replace {s}..{e} (expansion configured: {exp}, on character boundaries: {on_boundary})"));
-          }
-          file_langs.entry(file.clone()).or_default().insert(rec["language"].as_str().unwrap_or("").to_string());
-          per_file.entry(file).or_default().push((s, e, rep));
-        }
-        if let Some(m) = c06_bad {
-          out.oracle_fail("", &format!("{what}: {m}"), json!({"stream": "c06-locality", "rules": yamls, "files": names}));
-        }
-        // -U on the same tree
-        let ru = sg(&proj, &["scan", "-r", rarg, "-U", "."], None, 30);
-        if ru.timed_out || !matches!(ru.code, Some(0) | Some(1)) {
-          out.oracle_fail("", &format!("{what}: -U exit {:?} timed_out={} stderr={}", ru.code, ru.timed_out, ru.stderr.chars().take(300).collect::<String>()), json!({"stream": "c18", "rules": yamls}));
-          break;
-        }
-        let mut after = BTreeMap::new();
-        read_tree(&proj, &proj, &mut after);
-        let mut total = 0usize;
-        let mut bad: Option<String> = None;
-        let mut bad_class = "";
-        for (f, old) in &before {
-          let edits = per_file.get(f).cloned().unwrap_or_default();
-          match splice(old, &edits) {
-            Ok((want, n)) => {
-              total += n;
-              if after.get(f) != Some(&want) && bad.is_none() {
-                if file_langs.get(f).map(|l| l.len()).unwrap_or(0) > 1 {
-                  bad_class = "multi-document-file";
-                }
-                bad = Some(format!("{f}: after -U the file differs from the original with the {} announced edits applied ({} accepted)", edits.len(), n));
-              }
-              if std::str::from_utf8(&want).is_err() && std::str::from_utf8(old).is_ok() && bad.is_none() {
-                bad = Some(format!("{f}: applying the announced edits does not give valid UTF-8"));
-              }
-            }
-            Err(m) => bad = bad.or(Some(format!("{f}: {m}"))),
-          }
-        }
-        // tie: the model's update_file on (old text, announced edits in document order) per file
-        for (f, old) in &before {
-          let edits = per_file.get(f).cloned().unwrap_or_default();
-          if edits.is_empty() || file_langs.get(f).map(|l| l.len()).unwrap_or(0) > 1 {
-            continue;
-          }
-          let accepted = splice(old, &edits).map(|x| x.1).unwrap_or(0);
-          let changed = after.get(f) != Some(old);
-          let exp_new = if accepted == 0 { crate::val::Val::opt(None) } else { crate::val::Val::opt(Some(crate::val::Val::bytes(after.get(f).map(|v| v.as_slice()).unwrap_or(&[])))) };
-          let _ = changed;
-          out.case(43, &crate::vl![crate::val::Val::bytes(old), crate::val::Val::L(edits.iter().map(|(s, e, r)| crate::vl![crate::val::Val::n(*s), crate::val::Val::n(*e), crate::val::Val::str_bytes(r)]).collect())],
-            &crate::vl![crate::val::Val::Z(0), exp_new, crate::val::Val::n(accepted)], &format!("update_file {f} ({} announced edits) {}", edits.len(), what.chars().take(200).collect::<String>()));
-        }
-        let applied: usize = ru.stdout.lines().find_map(|l| l.strip_prefix("Applied ").and_then(|x| x.split(' ').next()).and_then(|x| x.parse().ok())).unwrap_or(0);
-        if bad.is_none() && applied != total {
-          bad = Some(format!("the command reports {applied} applied changes, {total} edits are present in the files"));
-        }
-        out.count(if total == 0 { "update:no-edit" } else if per_file.values().any(|v| v.len() > 1) { "update:several-edits-in-a-file" } else { "update:single-edits" });
-        if total > 0 {
-          out.nontrivial(&(lang.to_string(), yamls.clone(), round, pass));
-          if !sampled {
-            sampled = true;
-            out.sample(json!({"cmd": what.chars().take(300).collect::<String>(), "edits": total}));
-          }
-        }
-        if let Some(m) = bad {
-          out.oracle_fail(bad_class, &format!("{what}: {m}"), json!({"stream": "c18", "rules": yamls, "files": names, "stdout": ru.stdout.chars().take(300).collect::<String>()}));
-          break;
-        }
-      }
+      let base_args: Vec<String> = vec!["scan".into(), "-r".into(), rarg.to_string()];
+      let desc = format!("lang={lang} rules={}", serde_json::to_string(&yamls).unwrap());
+      announce_and_apply(&mut out, &proj, &base_args, &desc, &|rid: &str| rules.iter().any(|fr| fr.yaml.starts_with(&format!("id: {rid}\n")) && fr.expands), &mut sampled);
     }
   }
+  special_layouts(o, &mut out, &mut sampled);
   out.finish("temporary trees (nested directories, LF and CRLF files, a non-source file) of corpus sources with 1-3 fix rules cut from one of the files (string and object form, empty / wrapping / multi-byte templates, \
               expandStart / expandEnd); `sg scan -r R --json=stream` then `sg scan -r R -U` on the same tree, twice in a row: every file must equal the original with the announced edits spliced in announced order \
               (dropping an edit that overlaps an earlier accepted one), other files byte-identical, `Applied N changes` = number of spliced edits; every announced edit must start at the matched node and stay inside it \
-              unless the fix configures an expansion. non-trivial = at least one edit was applied");
+              unless the fix configures an expansion; plus fixed layouts: adjacent edits with no byte between them (statement lists, list elements with expandEnd), and a project (sgconfig.yml, rule directory, unused-suppression rule active) whose files carry used and unused `ast-grep-ignore` comments on fixable findings. non-trivial = at least one edit was applied");
   let _ = Value::Null;
+}
+
+/// layouts that random trees rarely produce
+fn special_layouts(o: &Opts, out: &mut Out, sampled: &mut bool) {
+  // ---- adjacent edits: ranges with no byte between them
+  for (li, (lang, ext)) in [("JavaScript", "js"), ("TypeScript", "ts")].iter().enumerate() {
+    let base = fresh_dir(&o.out, &format!("adj_{li}"));
+    let proj = base.join("t");
+    std::fs::create_dir_all(&proj).unwrap();
+    std::fs::write(proj.join(format!("adj.{ext}")), "foo();bar();baz();\nlet l = [a,b,c];\nqux(x,y,z)\n").unwrap();
+    let yamls = [
+      format!("id: stmt\nlanguage: {lang}\nmessage: m\nrule:\n  kind: expression_statement\n  pattern: $F();\nfix: \"$F(1);\"\n"),
+      format!("id: elem\nlanguage: {lang}\nmessage: m\nrule:\n  kind: identifier\n  inside: {{kind: array}}\nfix:\n  template: \"\"\n  expandEnd: {{regex: ','}}\n"),
+      format!("id: arg\nlanguage: {lang}\nmessage: m\nrule:\n  kind: identifier\n  inside: {{kind: arguments}}\nfix:\n  template: \"v\"\n  expandEnd: {{regex: ','}}\n"),
+    ];
+    let rp = base.join("rules.yml");
+    std::fs::write(&rp, yamls.join("---\n")).unwrap();
+    let rabs = std::fs::canonicalize(&rp).unwrap();
+    let args: Vec<String> = vec!["scan".into(), "-r".into(), rabs.to_string_lossy().to_string()];
+    announce_and_apply(out, &proj, &args, &format!("adjacent-edits lang={lang}"), &|rid: &str| rid != "stmt", sampled);
+    out.count("layout:adjacent-edits");
+  }
+  // ---- project mode with suppression comments on fixable findings (the unused-suppression rule has a fix too)
+  for (li, (lang, ext, cmt)) in [("JavaScript", "js", "//"), ("TypeScript", "ts", "//"), ("Python", "py", "#")].iter().enumerate() {
+    let base = fresh_dir(&o.out, &format!("proj_{li}"));
+    let proj = base.join("p");
+    std::fs::create_dir_all(proj.join("rules")).unwrap();
+    std::fs::create_dir_all(proj.join("src")).unwrap();
+    std::fs::write(proj.join("sgconfig.yml"), "ruleDirs:\n  - rules\n").unwrap();
+    std::fs::write(proj.join("rules/fx.yml"), format!("id: fx\nlanguage: {lang}\nmessage: m\nseverity: warning\nrule:\n  pattern: foo($A)\nfix: qux($A)\n")).unwrap();
+    std::fs::write(proj.join("rules/fy.yml"), format!("id: fy\nlanguage: {lang}\nmessage: m\nseverity: warning\nrule:\n  pattern: bar($A)\n")).unwrap();
+    let semi = if *ext == "py" { "" } else { ";" };
+    let src = format!("foo(1){semi}\n{cmt} ast-grep-ignore\nfoo(2){semi}\n{cmt} ast-grep-ignore: fx\nfoo(3){semi}\nbar(4){semi} {cmt} ast-grep-ignore: other\n{cmt} ast-grep-ignore: fx\nbaz(5){semi}\nfoo(6){semi} {cmt} ast-grep-ignore: fy\n");
+    std::fs::write(proj.join(format!("src/a.{ext}")), &src).unwrap();
+    std::fs::write(proj.join(format!("src/clean.{ext}")), format!("baz(0){semi}\n")).unwrap();
+    let args: Vec<String> = vec!["scan".into()];
+    announce_and_apply(out, &proj, &args, &format!("project-with-suppressions lang={lang}"), &|_rid: &str| false, sampled);
+    out.count("layout:project-suppressions");
+  }
 }
